@@ -121,7 +121,7 @@ fn evaluate_do_block_expr(
         // Still check for keywords
         if matches!(
             ident.as_str(),
-            "return" | "if" | "then" | "else" | "do" | "true" | "false" | "null" | "output"
+            "return" | "if" | "then" | "else" | "do" | "true" | "false" | "null" | "output" | "inputs"
         ) {
             return Err(RuntimeError::with_span(
                 format!("{} is a keyword, and cannot be reassigned", ident),
@@ -326,6 +326,16 @@ pub fn evaluate_ast(
             Ok(heap.borrow_mut().insert_record(record))
         }
         Expr::Lambda { args, body } => {
+            // `inputs` always means the program's inputs (it is looked up for `#name` and
+            // handed down to every call), so it cannot be a parameter name
+            if args.iter().any(|arg| arg.get_name() == "inputs") {
+                return Err(RuntimeError::with_span(
+                    "inputs is a keyword, and cannot be used as a parameter name".to_string(),
+                    expr.span,
+                    source.clone(),
+                ));
+            }
+
             // Capture variables used in the lambda body
             let mut captured_scope = HashMap::new();
             let mut referenced_vars = Vec::new();
